@@ -315,6 +315,13 @@ func (g *zoneGen) poison() {
 		g.z.Poison = append(g.z.Poison, simdoh.RR{Name: sink, Type: simdoh.TypeAAAA, TTL: g.ttl(), IP: "2001:db8:bad::200"})
 		g.z.Poison = append(g.z.Poison, simdoh.RR{Name: sink, Type: simdoh.TypeHTTPS, TTL: g.ttl(), Target: "", Svc: &simdoh.Svc{Priority: 1, ALPN: []string{"evil"}, ECH: []byte("EVIL-ECH-VIA-CNAME")}})
 	}
+	if core.Chance(g.r, 1, 4) && len(g.pool) > 0 {
+		// a CNAME cycle through one of the zone's own names, appended to every
+		// answer: following it must end (the records are in the answer only once)
+		h := core.Pick(g.r, g.pool)
+		g.z.Poison = append(g.z.Poison, simdoh.RR{Name: h, Type: simdoh.TypeCNAME, TTL: g.ttl(), Target: "loop.evil.test"})
+		g.z.Poison = append(g.z.Poison, simdoh.RR{Name: "loop.evil.test", Type: simdoh.TypeCNAME, TTL: g.ttl(), Target: h})
+	}
 	n := core.Between(g.r, 1, 3)
 	for i := 0; i < n; i++ {
 		owner := core.Pick(g.r, poisonOwners)
@@ -345,7 +352,7 @@ func (g *zoneGen) faults(names []string) {
 		}
 		switch g.r.IntN(8) {
 		case 0, 1, 2:
-			f.Kind, f.RCode = simdoh.FaultRCode, core.Pick(g.r, []int{1, 2, 2, 3, 4, 5, 5, 9})
+			f.Kind, f.RCode = simdoh.FaultRCode, core.Pick(g.r, []int{1, 2, 2, 3, 4, 5, 5, 9, 6, 10})
 		case 3:
 			f.Kind = simdoh.FaultTransport
 		case 4:
